@@ -1,17 +1,38 @@
 """Extractor `Subs` (C17, shared with C05/C03): from esr/generation/simplifier.py and duplicate_checker.py
 
-* the construction of `all_dup` in `get_all_dup` (one entry per `all_dup = / +=` statement, the comprehension variable,
-  the dict it builds, and the `comb` expression),
+* the construction of `all_dup` in `get_all_dup` (one entry per list the function concatenates into its result: the
+  dict it builds per parameter / per pair, and the order of the indices `comb` pairs up),
 * the `.replace(a, b)` sequence of `load_subs`, the literal compared with to detect the unrecoverable marker, the csv
   delimiter of the reader and of every writer of an inv_subs file, the `np.array_split` / `subs[ii[0]:ii[-1]+1]` block
   expression and the scatter / gather / chain calls,
 * the inverse-substitution templates `str({all_a[j]: <expr>})` of `sympy_simplify` and every other expression it records.
+
+How the two anchored functions are read (robust to behaviour-preserving refactors, fail closed otherwise):
+
+1. `_norm_c17.normalise_function` (N1-N10, listed in that module's docstring: helper inlining, assignment splitting,
+   conditional expressions, guard inversion / else-after-jump, negation forms, merged ifs, unrolled literal loops,
+   appending loop <-> comprehension, single-use pure temporaries).
+2. get_all_dup: `_DupEval` evaluates the normalised body symbolically.  Locals are followed by the VALUE they hold
+   (`("names",)`, `("syms",)`, `("idx", asc|desc)`, `("comb", order)`, `("dups", ...)`), so renamed locals, hoisted
+   temporaries, reordered independent statements, `np.flip(x)` / `x[::-1]` / `range(n-1,-1,-1)` / `reversed` /
+   `sorted(reverse=True)`, `for c in comb` with `c[0], c[1]` or `for p, q in comb`, iteration over the symbols / their
+   indices / `enumerate`, `=`/`+=`/`+`/`.extend`/append loops all give the same table.  Required and checked: the
+   `max_param == 0 -> []` guard comes first (sympy.symbols('') raises), the single-symbol fix `if max_param == 1`,
+   no one-shot iterator bound to a name, pairs over DESCENDING indices only.
+3. load_subs: the read / split / scatter / gather / chain / bcast statements are matched by `_norm_c17.unify` patterns
+   whose metavariables bind the locals consistently (renaming-proof; alternatives for `list(reader)` and
+   `chain.from_iterable`); the per-cell statements are evaluated symbolically by `_CellEval`: the cell text is followed
+   through `.replace` chains on the cell itself or on locals, through a row alias / `enumerate`, and the result must be
+   `np.nan if quoted == <literal> else (dict(zip(sympify keys, sympify values)) of literal_eval(quoted)), str()-ed when
+   not use_sympy` with one and the same fully quoted text in the test and in literal_eval.  A csv delimiter may be a
+   module-level string constant bound once.
 
 Fail closed: any unrecognised statement shape raises ExtractError.
 """
 import ast
 import extract
 from extract import ExtractError, lstr, llist
+from extractors import _norm_c17 as N
 
 SIMP = "esr/generation/simplifier.py"
 DUPC = "esr/generation/duplicate_checker.py"
@@ -58,201 +79,596 @@ def lchars(s):
 
 
 # ------------------------------------------------------------------------------------------------
-# get_all_dup
+# get_all_dup: symbolic evaluation of the (normalised) body
 # ------------------------------------------------------------------------------------------------
+#
+# Values a local of get_all_dup can hold, as far as the translator follows them:
+#   ("n",)                       the parameter max_param
+#   ("int", c)                   an int literal
+#   ("idx", order, reiter)       the ints 0..n-1 ascending ("asc") or descending ("desc"); reiter = may be iterated twice
+#   ("enum", v)                  enumerate(v)
+#   ("names",)                   ['a0', ..., 'a<n-1>']
+#   ("symsraw",)                 sympy.symbols(' '.join(names), real=True)   (a single Symbol when n == 1)
+#   ("syms",)                    the same after `if n == 1: x = [x]`: indexable / iterable for every n >= 1
+#   ("comb", order, reiter)      2-combinations of ("idx", order)
+#   ("dups", (stmt, ...), (src, ...))   the list under construction
 
-def _uexpr(node, var):
-    if isinstance(node, ast.Name) and node.id == var:
-        return ".x"
-    if isinstance(node, ast.Constant) and isinstance(node.value, int) and not isinstance(node.value, bool) and node.value >= 0:
-        return "(.nat %d)" % node.value
-    if isinstance(node, ast.UnaryOp) and isinstance(node.op, ast.USub):
-        return "(.neg %s)" % _uexpr(node.operand, var)
-    if isinstance(node, ast.BinOp):
-        op = {ast.Mult: "mul", ast.Div: "div", ast.Pow: "pow"}.get(type(node.op))
-        if op:
-            return "(.%s %s %s)" % (op, _uexpr(node.left, var), _uexpr(node.right, var))
-    raise ExtractError("get_all_dup: unsupported value expression %s (line %d)" % (ast.unparse(node), node.lineno))
+class _DupEval(object):
+    def __init__(self, fn):
+        a = fn.args
+        if len(a.args) != 1 or a.vararg or a.kwarg or a.kwonlyargs or a.posonlyargs or a.defaults:
+            raise ExtractError("get_all_dup: signature is not (max_param)")
+        self.n = a.args[0].arg
+        self.env = {}
+        self.guard0 = False
+        self.result = None
+        self.comb_src = None
 
+    def err(self, node, msg):
+        raise ExtractError("get_all_dup: %s (line %d)" % (msg, getattr(node, "lineno", 0)))
 
-def _pair_index(node):
-    # all_a[c[i]]
-    if (isinstance(node, ast.Subscript) and isinstance(node.value, ast.Name) and node.value.id == "all_a"
-            and isinstance(node.slice, ast.Subscript) and isinstance(node.slice.value, ast.Name) and node.slice.value.id == "c"
-            and isinstance(node.slice.slice, ast.Constant) and node.slice.slice.value in (0, 1)):
-        return node.slice.slice.value
-    raise ExtractError("get_all_dup: unsupported pair entry %s (line %d)" % (ast.unparse(node), node.lineno))
+    # --- expressions ---------------------------------------------------------------------------------
+    def is_n(self, node):
+        try:
+            return self.ev(node) == ("n",)
+        except ExtractError:
+            return False
 
+    def ev(self, node):
+        if isinstance(node, ast.Name):
+            if node.id == self.n:
+                return ("n",)
+            if node.id in self.env:
+                return self.env[node.id]
+            self.err(node, "unknown name %s" % node.id)
+        if isinstance(node, ast.Constant) and isinstance(node.value, int) and not isinstance(node.value, bool):
+            return ("int", node.value)
+        if isinstance(node, ast.List) and not node.elts:
+            return ("dups", (), ())
+        if isinstance(node, ast.ListComp):
+            return self.comp(node)
+        if isinstance(node, ast.BinOp) and isinstance(node.op, ast.Add):
+            a, b = self.ev(node.left), self.ev(node.right)
+            if a[0] == "dups" and b[0] == "dups":
+                return ("dups", a[1] + b[1], a[2] + b[2])
+            self.err(node, "unsupported + of %s and %s" % (a[0], b[0]))
+        if isinstance(node, ast.Subscript) and isinstance(node.slice, ast.Slice):
+            sl = node.slice
+            if sl.lower is None and sl.upper is None and sl.step is not None and N.u(sl.step) == "-1":
+                v = self.ev(node.value)
+                if v[0] == "idx" and v[2]:
+                    return ("idx", "desc" if v[1] == "asc" else "asc", True)
+            self.err(node, "unsupported slice %s" % N.u(node))
+        if isinstance(node, ast.Call):
+            f = N.call_name(node)
+            args, kw = node.args, {k.arg: k.value for k in node.keywords}
+            if any(isinstance(x, ast.Starred) for x in args) or None in kw:
+                self.err(node, "unsupported call %s" % N.u(node))
+            if f in ("range", "np.arange", "numpy.arange") and not kw:
+                if len(args) == 1:
+                    v = self.ev(args[0])
+                    if v == ("n",):
+                        return ("idx", "asc", True)
+                if len(args) == 3 and N.u(args[1]) == "-1" and N.u(args[2]) == "-1" and isinstance(args[0], ast.BinOp) \
+                        and isinstance(args[0].op, ast.Sub) and self.is_n(args[0].left) and N.u(args[0].right) == "1":
+                    return ("idx", "desc", True)
+                self.err(node, "unsupported range %s" % N.u(node))
+            if f == "len" and len(args) == 1 and not kw:
+                v = self.ev(args[0])
+                if v[0] in ("syms", "names") or (v[0] == "idx" and v[2]):
+                    return ("n",)
+                self.err(node, "len of %s" % v[0])
+            if f in ("np.flip", "numpy.flip", "np.flipud", "numpy.flipud", "reversed") and len(args) == 1 and not kw:
+                v = self.ev(args[0])
+                if v[0] == "idx" and v[2]:
+                    return ("idx", "desc" if v[1] == "asc" else "asc", f != "reversed")
+                self.err(node, "%s of %s" % (f, v[0]))
+            if f in ("list", "tuple") and len(args) == 1 and not kw:
+                v = self.ev(args[0])
+                if v[0] in ("idx", "comb"):
+                    return (v[0], v[1], True)
+                if v[0] == "dups" and f == "list":
+                    return v
+                self.err(node, "%s of %s" % (f, v[0]))
+            if f == "sorted" and len(args) == 1 and set(kw) <= {"reverse"}:
+                v = self.ev(args[0])
+                rev = kw.get("reverse")
+                if v[0] == "idx" and (rev is None or (isinstance(rev, ast.Constant) and isinstance(rev.value, bool))):
+                    return ("idx", "desc" if (rev is not None and rev.value) else "asc", True)
+                self.err(node, "unsupported sorted")
+            if f == "enumerate" and len(args) == 1 and not kw:
+                v = self.ev(args[0])
+                if v[0] in ("syms",):
+                    return ("enum", v)
+                self.err(node, "enumerate of %s" % v[0])
+            if f == "itertools.combinations" and len(args) == 2 and not kw and N.u(args[1]) == "2":
+                v = self.ev(args[0])
+                if v[0] == "idx":
+                    return ("comb", v[1], False)
+                self.err(node, "combinations of %s" % v[0])
+            if f == "sympy.symbols" and len(args) == 1 and set(kw) == {"real"} and isinstance(kw["real"], ast.Constant) \
+                    and kw["real"].value is True:
+                b = N.unify("' '.join(MX_p)", args[0])
+                if b is not None and self.ev(b["MX_p"][1]) == ("names",):
+                    if not self.guard0:
+                        self.err(node, "sympy.symbols reached without the `max_param == 0` guard (raises for 0 parameters)")
+                    return ("symsraw",)
+                self.err(node, "unsupported sympy.symbols argument")
+        self.err(node, "unsupported expression %s" % N.u(node))
 
-def _dup_stmt(value):
-    if not (isinstance(value, ast.ListComp) and len(value.generators) == 1 and not value.generators[0].ifs):
-        raise ExtractError("get_all_dup: all_dup not built by a single list comprehension (line %d)" % value.lineno)
-    gen = value.generators[0]
-    elt = value.elt
-    if not (isinstance(elt, ast.Call) and isinstance(elt.func, ast.Name) and elt.func.id == "str" and len(elt.args) == 1
-            and isinstance(elt.args[0], ast.Dict)):
-        raise ExtractError("get_all_dup: element is not str({...}) (line %d)" % elt.lineno)
-    d = elt.args[0]
-    if not (isinstance(gen.target, ast.Name) and isinstance(gen.iter, ast.Name)):
-        raise ExtractError("get_all_dup: unsupported comprehension (line %d)" % value.lineno)
-    if gen.iter.id == "all_a":
-        var = gen.target.id
-        if not (len(d.keys) == 1 and isinstance(d.keys[0], ast.Name) and d.keys[0].id == var):
-            raise ExtractError("get_all_dup: one-parameter entry must have the single key `%s` (line %d)" % (var, d.lineno))
-        return ".unary %s" % _uexpr(d.values[0], var), ast.unparse(value)
-    if gen.iter.id == "comb" and gen.target.id == "c":
-        items = ["(%d, %d)" % (_pair_index(k), _pair_index(v)) for k, v in zip(d.keys, d.values)]
-        return ".pair %s" % llist(items), ast.unparse(value)
-    raise ExtractError("get_all_dup: comprehension over %s not recognised (line %d)" % (gen.iter.id, value.lineno))
+    # --- one list comprehension ----------------------------------------------------------------------
+    def comp(self, node):
+        if len(node.generators) != 1 or node.generators[0].ifs or node.generators[0].is_async:
+            self.err(node, "unsupported comprehension")
+        gen = node.generators[0]
+        it = self.ev(gen.iter)
+        tgt = gen.target
+        if isinstance(tgt, ast.Name):
+            tn = [tgt.id]
+        elif isinstance(tgt, ast.Tuple) and all(isinstance(e, ast.Name) for e in tgt.elts):
+            tn = [e.id for e in tgt.elts]
+        else:
+            self.err(node, "unsupported comprehension target")
+        if set(tn) & (set(self.env) | {self.n}):
+            self.err(node, "comprehension variable shadows a local")
+        elt = node.elt
+        if it[0] == "idx" and it[1] == "asc" and len(tn) == 1 and N.is_param_name_format(elt, tn[0]):
+            return ("names",)
+        b = N.unify("str(MX_d)", elt)
+        if b is None or not isinstance(b["MX_d"][1], ast.Dict) or None in b["MX_d"][1].keys:
+            self.err(node, "element is not str({...})")
+        d = b["MX_d"][1]
+        src = ast.unparse(node)
+        if it[0] in ("syms", "enum") or (it[0] == "idx" and it[1] == "asc"):
+            # one entry per parameter, ascending: which expressions denote "the parameter of this iteration"
+            if it[0] == "syms" and len(tn) == 1:
+                is_x = lambda e: isinstance(e, ast.Name) and e.id == tn[0]
+            elif it[0] == "enum" and len(tn) == 2:
+                is_x = lambda e: (isinstance(e, ast.Name) and e.id == tn[1]) or self.sym_at(e, tn[0])
+            elif it[0] == "idx" and len(tn) == 1:
+                is_x = lambda e: self.sym_at(e, tn[0])
+            else:
+                self.err(node, "unsupported comprehension target")
+            if not (len(d.keys) == 1 and is_x(d.keys[0])):
+                self.err(d, "one-parameter entry must have the parameter as its single key")
+            return ("dups", (".unary %s" % self.uexpr(d.values[0], is_x),), (src,))
+        if it[0] == "comb":
+            if it[1] != "desc":
+                self.err(node, "pairs over ascending indices not modelled")
+            if not (len(tn) == 1 or (len(tn) == 2 and tn[0] != tn[1])):
+                self.err(node, "unsupported comprehension target")
+
+            def sel(e):
+                """which component of the pair the index expression e denotes"""
+                if len(tn) == 1:
+                    if isinstance(e, ast.Subscript) and isinstance(e.value, ast.Name) and e.value.id == tn[0] \
+                            and isinstance(e.slice, ast.Constant) and type(e.slice.value) is int and e.slice.value in (0, 1):
+                        return e.slice.value
+                elif isinstance(e, ast.Name) and e.id in tn:
+                    return tn.index(e.id)
+                return None
+
+            def pidx(e):
+                if isinstance(e, ast.Subscript) and not isinstance(e.slice, ast.Slice) and self.is_syms(e.value) \
+                        and sel(e.slice) is not None:
+                    return sel(e.slice)
+                self.err(e, "unsupported pair entry %s" % N.u(e))
+            items = ["(%d, %d)" % (pidx(k), pidx(v)) for k, v in zip(d.keys, d.values)]
+            return ("dups", (".pair %s" % llist(items),), (src,))
+        self.err(node, "comprehension over %s not recognised" % it[0])
+
+    def is_syms(self, node):
+        try:
+            return self.ev(node) == ("syms",)
+        except ExtractError:
+            return False
+
+    def sym_at(self, e, var):
+        return isinstance(e, ast.Subscript) and isinstance(e.slice, ast.Name) and e.slice.id == var and self.is_syms(e.value)
+
+    def uexpr(self, node, is_x):
+        if is_x(node):
+            return ".x"
+        if isinstance(node, ast.Constant) and isinstance(node.value, int) and not isinstance(node.value, bool) and node.value >= 0:
+            return "(.nat %d)" % node.value
+        if isinstance(node, ast.UnaryOp) and isinstance(node.op, ast.USub):
+            return "(.neg %s)" % self.uexpr(node.operand, is_x)
+        if isinstance(node, ast.BinOp):
+            op = {ast.Mult: "mul", ast.Div: "div", ast.Pow: "pow"}.get(type(node.op))
+            if op:
+                return "(.%s %s %s)" % (op, self.uexpr(node.left, is_x), self.uexpr(node.right, is_x))
+        self.err(node, "unsupported value expression %s" % ast.unparse(node))
+
+    # --- statements ------------------------------------------------------------------------------------
+    def bind(self, name, val, node):
+        if name == self.n:
+            self.err(node, "parameter re-assigned")
+        if val[0] in ("idx", "comb") and not val[2]:
+            self.err(node, "a one-shot iterator bound to a name is not modelled")
+        if val[0] == "comb":
+            self.comb_src = ast.unparse(node.value) if isinstance(node, ast.Assign) else self.comb_src
+        self.env[name] = val
+
+    def run(self, stmts):
+        for k, st in enumerate(stmts):
+            if self.result is not None:
+                self.err(st, "statement after return")
+            u = ast.unparse(st)
+            if isinstance(st, ast.If):
+                t = st.test
+                is0 = N.unify("MV_n == 0", t) or N.unify("0 == MV_n", t)
+                if is0 is not None and is0["MV_n"] == self.n and len(st.body) == 1 and isinstance(st.body[0], ast.Return) \
+                        and st.body[0].value is not None and N.u(st.body[0].value) in ("[]", "list()"):
+                    if self.env:
+                        self.err(st, "`max_param == 0` guard is not the first statement")
+                    self.guard0 = True
+                    if st.orelse:
+                        if k != len(stmts) - 1:
+                            self.err(st, "unreachable structure after guard")
+                        self.run(st.orelse)
+                    continue
+                is1 = N.unify("MV_n == 1", t) or N.unify("1 == MV_n", t)
+                if is1 is not None and is1["MV_n"] == self.n and len(st.body) == 1 and len(st.orelse) <= 1:
+                    b = N.unify("MV_a = [MV_a]", st.body[0])
+                    if b is not None and st.orelse and N.unify("MV_a = MV_a", st.orelse[0], b) is None:
+                        b = None                   # only the no-op `x = x` (from `x = [x] if n == 1 else x`) is accepted
+                    if b is not None and self.env.get(b["MV_a"]) == ("symsraw",):
+                        self.env[b["MV_a"]] = ("syms",)
+                        continue
+                self.err(st, "unrecognised statement: %s" % u.splitlines()[0])
+            if isinstance(st, ast.Assign) and len(st.targets) == 1 and isinstance(st.targets[0], ast.Name):
+                self.bind(st.targets[0].id, self.ev(st.value), st)
+                continue
+            if isinstance(st, ast.AugAssign) and isinstance(st.target, ast.Name) and isinstance(st.op, ast.Add):
+                cur = self.env.get(st.target.id)
+                val = self.ev(st.value)
+                if cur is not None and cur[0] == "dups" and val[0] == "dups":
+                    self.env[st.target.id] = ("dups", cur[1] + val[1], cur[2] + val[2])
+                    continue
+                self.err(st, "unrecognised statement: %s" % u.splitlines()[0])
+            b = N.unify("MV_x.extend(MX_v)", st.value) if isinstance(st, ast.Expr) else None
+            if b is not None:
+                cur = self.env.get(b["MV_x"])
+                val = self.ev(b["MX_v"][1])
+                if cur is not None and cur[0] == "dups" and val[0] == "dups":
+                    self.env[b["MV_x"]] = ("dups", cur[1] + val[1], cur[2] + val[2])
+                    continue
+                self.err(st, "unrecognised statement: %s" % u.splitlines()[0])
+            if isinstance(st, ast.Return) and st.value is not None:
+                val = self.ev(st.value)
+                if val[0] != "dups" or not val[1]:
+                    self.err(st, "return value is not the constructed list")
+                self.result = val
+                continue
+            self.err(st, "unrecognised statement: %s" % u.splitlines()[0])
 
 
 def _get_all_dup(tree):
-    fn = extract.find_def(tree, "get_all_dup")
-    stmts, srcs = [], []
-    comb_src = None
-    seen_return = False
-    for st in fn.body:
-        u = ast.unparse(st)
-        if isinstance(st, ast.Expr) and isinstance(st.value, ast.Constant) and isinstance(st.value.value, str):
-            continue
-        if u == "if max_param == 0:\n    return []":
-            continue
-        if u == "param_list = ['a%i' % i for i in range(max_param)]":
-            continue
-        if u == "all_a = sympy.symbols(' '.join(param_list), real=True)":
-            continue
-        if u == "if max_param == 1:\n    all_a = [all_a]":
-            continue
-        if isinstance(st, ast.Assign) and len(st.targets) == 1 and isinstance(st.targets[0], ast.Name):
-            name = st.targets[0].id
-            if name == "comb":
-                comb_src = ast.unparse(st.value)
-                continue
-            if name == "all_dup":
-                if stmts:
-                    raise ExtractError("get_all_dup: all_dup re-assigned (line %d)" % st.lineno)
-                a, b = _dup_stmt(st.value); stmts.append(a); srcs.append(b)
-                continue
-        if isinstance(st, ast.AugAssign) and isinstance(st.target, ast.Name) and st.target.id == "all_dup" and isinstance(st.op, ast.Add):
-            a, b = _dup_stmt(st.value); stmts.append(a); srcs.append(b)
-            continue
-        if u == "return all_dup":
-            seen_return = True
-            continue
-        raise ExtractError("get_all_dup: unrecognised statement at line %d: %s" % (st.lineno, u.splitlines()[0]))
-    if not seen_return or not stmts:
-        raise ExtractError("get_all_dup: no all_dup construction / return found")
-    if comb_src is None and any(".pair" in s for s in stmts):
-        raise ExtractError("get_all_dup: comb not defined")
-    return stmts, srcs, comb_src or "", (fn.lineno, fn.end_lineno)
+    fn0 = extract.find_def(tree, "get_all_dup")
+    fn = N.normalise_function(fn0, tree)
+    ev = _DupEval(fn)
+    ev.run(fn.body)
+    if ev.result is None or not ev.guard0:
+        raise ExtractError("get_all_dup: no all_dup construction / return / zero-parameter guard found")
+    stmts, srcs = list(ev.result[1]), list(ev.result[2])
+    has_pair = any(s.startswith(".pair") for s in stmts)
+    return stmts, srcs, (ev.comb_src or ""), ("descending" if has_pair else "-"), (fn0.lineno, fn0.end_lineno)
 
 
 # ------------------------------------------------------------------------------------------------
 # load_subs
 # ------------------------------------------------------------------------------------------------
 
-def _const_str(node, what):
+def _const_str(node, what, consts=None):
     if isinstance(node, ast.Constant) and isinstance(node.value, str):
         return node.value
+    if isinstance(node, ast.Name) and consts and node.id in consts:
+        return consts[node.id]
     raise ExtractError("%s: expected a string literal, got %s (line %d)" % (what, ast.unparse(node), node.lineno))
 
 
-def _csv_delims(tree, fname, which):
+def _str_consts(tree):
+    """module-level names bound exactly once, to a string literal (e.g. a hoisted `DELIM = ';'`)"""
+    cnt, val = {}, {}
+    for n in ast.walk(tree):
+        if isinstance(n, ast.Name) and isinstance(n.ctx, (ast.Store, ast.Del)):
+            cnt[n.id] = cnt.get(n.id, 0) + 1
+        if isinstance(n, (ast.FunctionDef, ast.Lambda)):
+            for a in n.args.args + n.args.kwonlyargs + n.args.posonlyargs:
+                cnt[a.arg] = cnt.get(a.arg, 0) + 2
+        if isinstance(n, ast.Global):
+            for x in n.names:
+                cnt[x] = cnt.get(x, 0) + 2
+    for st in tree.body:
+        if isinstance(st, ast.Assign) and len(st.targets) == 1 and isinstance(st.targets[0], ast.Name) \
+                and isinstance(st.value, ast.Constant) and isinstance(st.value.value, str):
+            val[st.targets[0].id] = st.value.value
+    return {k: v for k, v in val.items() if cnt.get(k) == 1}
+
+
+def _csv_delims(tree, fname, which, consts=None):
     out = []
     for n in ast.walk(tree):
         if (isinstance(n, ast.Call) and isinstance(n.func, ast.Attribute) and isinstance(n.func.value, ast.Name)
                 and n.func.value.id == "csv" and n.func.attr == which):
             kw = {k.arg: k.value for k in n.keywords}
             if set(kw) - {"delimiter"}:
-                raise ExtractError("%s: csv.%s with unmodelled options %s (line %d)" % (fname, which, sorted(kw), n.lineno))
-            d = _const_str(kw["delimiter"], "csv.%s delimiter" % which) if "delimiter" in kw else ","
+                raise ExtractError("%s: csv.%s with unmodelled options %s (line %d)" % (fname, which, sorted(kw, key=str), n.lineno))
+            d = _const_str(kw["delimiter"], "csv.%s delimiter" % which, consts) if "delimiter" in kw else ","
             if len(d) != 1:
                 raise ExtractError("%s: csv delimiter %r is not one character" % (fname, d))
             out.append((d, n.lineno))
     return out
 
 
-def _slice_offsets(node):
+def _slice_offsets(node, subs, ii):
     """subs[ii[0] (+a) : ii[-1] (+b)]  ->  (a, b)"""
     def off(e, idx):
         def is_ii(x):
-            return (isinstance(x, ast.Subscript) and isinstance(x.value, ast.Name) and x.value.id == "ii"
+            return (isinstance(x, ast.Subscript) and isinstance(x.value, ast.Name) and x.value.id == ii
                     and ast.unparse(x.slice) == idx)
         if is_ii(e):
             return 0
         if isinstance(e, ast.BinOp) and isinstance(e.op, (ast.Add, ast.Sub)) and is_ii(e.left) \
-                and isinstance(e.right, ast.Constant) and isinstance(e.right.value, int):
+                and isinstance(e.right, ast.Constant) and type(e.right.value) is int:
             v = e.right.value if isinstance(e.op, ast.Add) else -e.right.value
             if v < 0:
                 raise ExtractError("load_subs: negative slice offset (line %d)" % e.lineno)
             return v
+        if isinstance(e, ast.BinOp) and isinstance(e.op, ast.Add) and is_ii(e.right) \
+                and isinstance(e.left, ast.Constant) and type(e.left.value) is int and e.left.value >= 0:
+            return e.left.value
         raise ExtractError("load_subs: slice bound %s not recognised (line %d)" % (ast.unparse(e), e.lineno))
-    if not (isinstance(node, ast.Subscript) and isinstance(node.value, ast.Name) and node.value.id == "subs"
+    if not (isinstance(node, ast.Subscript) and isinstance(node.value, ast.Name) and node.value.id == subs
             and isinstance(node.slice, ast.Slice) and node.slice.step is None
             and node.slice.lower is not None and node.slice.upper is not None):
         raise ExtractError("load_subs: block expression %s not recognised" % ast.unparse(node))
     return off(node.slice.lower, "0"), off(node.slice.upper, "-1")
 
 
+class _CellEval(object):
+    """Symbolic evaluation of the per-cell statements of load_subs.
+
+    values:  ("str", ops)  the cell text after the `.replace` calls ops = ((old, new, line), ...)
+             ("nan",)  np.nan        ("lit", ops)  ast.literal_eval of such a text
+             ("keys", d) / ("values", d)     ("symeach", seq)  [sympy.sympify(x, locals=locs) for x in seq]
+             ("dictzip", k, v)  dict(zip(k, v))     ("strof", x)  str(x)
+             ("condstr", x)   str(x) if not use_sympy else x
+             ("nancase", ops, literal, x)   np.nan if text == literal else x
+    """
+
+    def __init__(self, is_cellref, cellname, use_sympy, locs_names):
+        self.is_cellref = is_cellref
+        self.env = {}
+        if cellname:
+            self.env[cellname] = ("str", ())
+        self.cell = ("str", ())
+        self.use_sympy = use_sympy
+        self.locs = locs_names
+
+    def err(self, node, msg):
+        raise ExtractError("load_subs: %s (line %d)" % (msg, getattr(node, "lineno", 0)))
+
+    def ev(self, node):
+        if self.is_cellref(node):
+            return self.cell
+        if isinstance(node, ast.Name):
+            if node.id in self.env:
+                return self.env[node.id]
+            self.err(node, "unknown name %s in the per-cell statements" % node.id)
+        if N.u(node) in ("np.nan", "numpy.nan"):
+            return ("nan",)
+        if isinstance(node, ast.ListComp):
+            b = N.unify("[sympy.sympify(MV_e, locals=MV_l) for MV_e in MX_s]", node)
+            if b is not None and b["MV_l"] in self.locs:
+                seq = self.ev(b["MX_s"][1])
+                if seq[0] in ("keys", "values"):
+                    return ("symeach", seq)
+            self.err(node, "unsupported comprehension %s" % N.u(node))
+        if isinstance(node, ast.Call) and not any(isinstance(a, ast.Starred) for a in node.args):
+            f = node.func
+            if isinstance(f, ast.Attribute) and f.attr == "replace" and len(node.args) == 2 and not node.keywords:
+                v = self.ev(f.value)
+                if v[0] != "str":
+                    self.err(node, ".replace on %s" % v[0])
+                a = _const_str(node.args[0], "replace"); b = _const_str(node.args[1], "replace")
+                if a == "":
+                    self.err(node, "empty replace pattern")
+                return ("str", v[1] + ((a, b, node.lineno),))
+            if isinstance(f, ast.Attribute) and f.attr in ("keys", "values") and not node.args and not node.keywords:
+                v = self.ev(f.value)
+                if v[0] == "lit":
+                    return (f.attr, v)
+                self.err(node, ".%s() of %s" % (f.attr, v[0]))
+            name = N.call_name(node)
+            if name == "ast.literal_eval" and len(node.args) == 1 and not node.keywords:
+                v = self.ev(node.args[0])
+                if v[0] == "str":
+                    return ("lit", v[1])
+                self.err(node, "literal_eval of %s" % v[0])
+            if name == "list" and len(node.args) == 1 and not node.keywords:
+                v = self.ev(node.args[0])
+                if v[0] in ("keys", "values"):
+                    return v
+                if v[0] == "lit":
+                    return ("keys", v)
+                self.err(node, "list of %s" % v[0])
+            if name == "str" and len(node.args) == 1 and not node.keywords:
+                return ("strof", self.ev(node.args[0]))
+            b = N.unify("dict(zip(MX_k, MX_v))", node)
+            if b is not None:
+                return ("dictzip", self.ev(b["MX_k"][1]), self.ev(b["MX_v"][1]))
+        self.err(node, "unsupported per-cell expression %s" % N.u(node))
+
+    def fork(self):
+        c = _CellEval(self.is_cellref, None, self.use_sympy, self.locs)
+        c.env = dict(self.env)
+        c.cell = self.cell
+        return c
+
+    def run(self, stmts):
+        for k, st in enumerate(stmts):
+            if self.cell[0] == "nancase":
+                self.err(st, "statements after the nan test")
+            if isinstance(st, ast.Assign) and len(st.targets) == 1:
+                t = st.targets[0]
+                val = self.ev(st.value)
+                if self.is_cellref(t):
+                    self.cell = val
+                elif isinstance(t, ast.Name):
+                    self.env[t.id] = val
+                else:
+                    self.err(st, "unrecognised per-cell statement: %s" % N.u(st).splitlines()[0])
+                continue
+            if isinstance(st, ast.If):
+                t = st.test
+                # use_sympy switch
+                if isinstance(t, ast.Name) and t.id == self.use_sympy:
+                    yes, no = st.body, st.orelse
+                elif isinstance(t, ast.UnaryOp) and isinstance(t.op, ast.Not) and isinstance(t.operand, ast.Name) \
+                        and t.operand.id == self.use_sympy:
+                    yes, no = st.orelse, st.body
+                else:
+                    yes = None
+                if yes is not None:
+                    a, b = self.fork(), self.fork()
+                    a.run(yes); b.run(no)
+                    if b.cell != ("strof", a.cell):
+                        self.err(st, "use_sympy switch is not `cell = str(cell)`")
+                    self.cell = ("condstr", a.cell)
+                    self.env = {n: v for n, v in a.env.items() if b.env.get(n) == v}
+                    continue
+                # the nan test
+                if isinstance(t, ast.Compare) and len(t.ops) == 1 and isinstance(t.ops[0], (ast.Eq, ast.NotEq)):
+                    l, r = t.left, t.comparators[0]
+                    if isinstance(l, ast.Constant):
+                        l, r = r, l                       # str == str is symmetric
+                    if isinstance(r, ast.Constant) and isinstance(r.value, str):
+                        v = self.ev(l)
+                        if v[0] != "str":
+                            self.err(st, "nan test on %s" % v[0])
+                        isnan, other = (st.body, st.orelse) if isinstance(t.ops[0], ast.Eq) else (st.orelse, st.body)
+                        a, b = self.fork(), self.fork()
+                        a.run(isnan); b.run(other)
+                        if a.cell != ("nan",):
+                            self.err(st, "nan branch not recognised")
+                        self.cell = ("nancase", v[1], r.value, b.cell)
+                        self.env = {}
+                        continue
+            self.err(st, "unrecognised per-cell statement: %s" % N.u(st).splitlines()[0])
+
+
 def _load_subs(tree):
-    fn = extract.find_def(tree, "load_subs")
-    src = ast.unparse(fn)
-    need = [
-        "subs = [r for r in reader]",
-        "i = np.array_split(np.arange(len(subs)), size)",
-        "ii = np.atleast_1d(i[r])",
-        "all_subs = comm.scatter(all_subs, root=0)",
-        "all_subs = comm.gather(all_subs, root=0)",
-        "all_subs = list(itertools.chain(*all_subs))",
-        "all_subs = comm.bcast(all_subs, root=0)",
-        "d = ast.literal_eval(all_subs[i][j])",
-        "k = [sympy.sympify(kk, locals=locs) for kk in k]",
-        "v = [sympy.sympify(vv, locals=locs) for vv in v]",
-        "all_subs[i][j] = dict(zip(k, v))",
-    ]
-    for s in need:
-        if s not in src:
-            raise ExtractError("load_subs: expected statement not found: %s" % s)
-    # the block each rank receives
+    fn0 = extract.find_def(tree, "load_subs")
+    a = fn0.args
+    if [x.arg for x in a.args] != ["fname", "max_param", "use_sympy", "bcast_res"] or a.vararg or a.kwarg or a.kwonlyargs \
+            or [N.u(d) for d in a.defaults] != ["True", "True"]:
+        raise ExtractError("load_subs: signature is not (fname, max_param, use_sympy=True, bcast_res=True)")
+    fn = N.normalise_function(fn0, tree)
+    W = "load_subs"
+    # rank 0 reads every row, splits the row indices into `size` blocks, scatters; ...; gather, chain, bcast
+    _, b = N.find_stmt(fn, ["MV_subs = [MV_r for MV_r in MV_reader]", "MV_subs = list(MV_reader)",
+                            "MV_subs = [MV_r for MV_r in csv.reader(MV_f, delimiter=MX_d)]",
+                            "MV_subs = list(csv.reader(MV_f, delimiter=MX_d))"], {}, W)
+    if "MV_reader" in b:
+        _, b = N.find_stmt(fn, ["MV_reader = csv.reader(MV_f, delimiter=MX_d)", "MV_reader = csv.reader(MV_f)"], b, W)
+    _, b = N.find_stmt(fn, ["MV_i = np.array_split(np.arange(len(MV_subs)), size)"], b, W)
+    st_ii, b = N.find_stmt(fn, ["MV_ii = np.atleast_1d(MV_i[MV_rr])"], b, W)
+    loops = [n for n in ast.walk(fn) if isinstance(n, ast.For) and N.unify("range(size)", n.iter) is not None
+             and isinstance(n.target, ast.Name) and n.target.id == b["MV_rr"] and any(x is st_ii for x in ast.walk(n))]
+    if len(loops) != 1:
+        raise ExtractError("load_subs: loop over the ranks `for %s in range(size)` not found" % b["MV_rr"])
     block = None
-    for n in ast.walk(fn):
-        if isinstance(n, ast.Assign) and ast.unparse(n.targets[0]) == "all_subs[r]" and isinstance(n.value, ast.Subscript):
+    for n in ast.walk(loops[0]):
+        if isinstance(n, ast.Assign) and len(n.targets) == 1 and isinstance(n.value, ast.Subscript):
+            bb = N.unify("MV_A[MV_rr]", n.targets[0], b)
+            if bb is None:
+                continue
             if block is not None:
                 raise ExtractError("load_subs: two block assignments")
-            block = (_slice_offsets(n.value), ast.unparse(n.value), n.lineno)
+            b = bb
+            block = (_slice_offsets(n.value, b["MV_subs"], b["MV_ii"]), ast.unparse(n.value), n.lineno)
     if block is None:
         raise ExtractError("load_subs: block assignment all_subs[r] = subs[...] not found")
-    # the per-cell loop
-    inner = None
+    _, b = N.find_stmt(fn, ["MV_B = comm.scatter(MV_A, root=0)"], b, W)
+    _, b = N.find_stmt(fn, ["MV_C = comm.gather(MV_B, root=0)"], b, W)
+    _, b = N.find_stmt(fn, ["MV_D = list(itertools.chain(*MV_C))", "MV_D = list(itertools.chain.from_iterable(MV_C))"], b, W)
+    _, b = N.find_stmt(fn, ["MV_E = comm.bcast(MV_D, root=0)"], b, W)
+    B = b["MV_B"]
+    # the loop over the rows of this rank's block
+    outer = []
     for n in ast.walk(fn):
-        if isinstance(n, ast.For) and ast.unparse(n.iter) == "range(len(all_subs[i]))" and isinstance(n.target, ast.Name) and n.target.id == "j":
-            inner = n
+        if isinstance(n, ast.For):
+            for src in ("for MV_i2 in range(len(%s)):\n pass", "for MV_row in %s:\n pass", "for MV_i2, MV_row in enumerate(%s):\n pass"):
+                pat = N.pattern(src % B)
+                bb = {}
+                if N._unify(pat.target, n.target, bb) and N._unify(pat.iter, n.iter, bb):
+                    outer.append((n, bb))
+    if len(outer) != 1:
+        raise ExtractError("load_subs: expected exactly one loop over the rows of the scattered block, found %d" % len(outer))
+    outer, ob = outer[0]
+    rowrefs = set()
+    if "MV_i2" in ob:
+        rowrefs.add("%s[%s]" % (B, ob["MV_i2"]))
+    if "MV_row" in ob:
+        rowrefs.add(ob["MV_row"])
+    if outer.orelse:
+        raise ExtractError("load_subs: for/else on the row loop")
+
+    def is_row(e):
+        return N.u(e) in rowrefs
+
+    def guard_ok(t):
+        for src in ("len(MX_r) != 0", "len(MX_r) > 0", "0 != len(MX_r)", "0 < len(MX_r)", "len(MX_r) >= 1", "len(MX_r)"):
+            bb = N.unify(src, t)
+            if bb is not None and is_row(bb["MX_r"][1]):
+                return True
+        return is_row(t)               # a csv row is a list: truthiness == non-emptiness
+
+    inner = None
+    todo = list(outer.body)
+    while todo:
+        st = todo.pop(0)
+        bb = N.unify("MV_alias = MX_r", st)
+        if bb is not None and is_row(bb["MX_r"][1]) and inner is None:
+            rowrefs.add(bb["MV_alias"])
+            continue
+        if isinstance(st, ast.If) and not st.orelse and guard_ok(st.test) and not todo and inner is None:
+            todo = list(st.body)
+            continue
+        if isinstance(st, ast.For) and inner is None and not st.orelse and not todo:
+            inner = st
+            continue
+        raise ExtractError("load_subs: unrecognised statement in the row loop at line %d: %s" % (st.lineno, N.u(st).splitlines()[0]))
     if inner is None:
         raise ExtractError("load_subs: per-cell loop not found")
-    seq = []
-    nan_lit = None
-    for k, st in enumerate(inner.body):
-        if (isinstance(st, ast.Assign) and ast.unparse(st.targets[0]) == "all_subs[i][j]" and isinstance(st.value, ast.Call)
-                and isinstance(st.value.func, ast.Attribute) and st.value.func.attr == "replace"
-                and ast.unparse(st.value.func.value) == "all_subs[i][j]" and len(st.value.args) == 2 and not st.value.keywords):
-            if nan_lit is not None:
-                raise ExtractError("load_subs: replace after the nan test (line %d)" % st.lineno)
-            a = _const_str(st.value.args[0], "replace"); b = _const_str(st.value.args[1], "replace")
-            if a == "":
-                raise ExtractError("load_subs: empty replace pattern")
-            seq.append((a, b, st.lineno))
-        elif isinstance(st, ast.If) and isinstance(st.test, ast.Compare) and ast.unparse(st.test.left) == "all_subs[i][j]" \
-                and len(st.test.ops) == 1 and isinstance(st.test.ops[0], ast.Eq):
-            nan_lit = _const_str(st.test.comparators[0], "nan test")
-            if ast.unparse(st.body[0]) != "all_subs[i][j] = np.nan" or len(st.body) != 1:
-                raise ExtractError("load_subs: nan branch not recognised (line %d)" % st.lineno)
-            if k != len(inner.body) - 1:
-                raise ExtractError("load_subs: statements after the nan test (line %d)" % st.lineno)
-        else:
-            raise ExtractError("load_subs: unrecognised per-cell statement at line %d: %s" % (st.lineno, ast.unparse(st).splitlines()[0]))
-    if nan_lit is None or not seq:
+    ib = None
+    for src in ("for MV_j in range(len(MX_r)):\n pass", "for MV_j, MV_cell in enumerate(MX_r):\n pass"):
+        pat = N.pattern(src)
+        bb = {}
+        if N._unify(pat.target, inner.target, bb) and N._unify(pat.iter, inner.iter, bb) and is_row(bb["MX_r"][1]):
+            ib = bb
+    if ib is None:
+        raise ExtractError("load_subs: per-cell loop header not recognised (line %d)" % inner.lineno)
+    cellrefs = {"%s[%s]" % (r, ib["MV_j"]) for r in rowrefs}
+    locs = {"sympy_locs"}
+    for n in ast.walk(fn):
+        bb = N.unify("MV_l = sympy_locs", n) if isinstance(n, ast.Assign) else None
+        if bb is not None:
+            locs.add(bb["MV_l"])
+    ce = _CellEval(lambda e: isinstance(e, ast.Subscript) and N.u(e) in cellrefs, ib.get("MV_cell"), "use_sympy", locs)
+    ce.run(inner.body)
+    c = ce.cell
+    if c[0] != "nancase":
         raise ExtractError("load_subs: replace sequence / nan test not found")
-    return seq, nan_lit, block, (fn.lineno, fn.end_lineno)
+    ops, nan_lit, val = c[1], c[2], c[3]
+    want = ("condstr", ("dictzip", ("symeach", ("keys", ("lit", ops))), ("symeach", ("values", ("lit", ops)))))
+    if val != want:
+        raise ExtractError("load_subs: the non-nan branch is not dict(zip(sympify(keys), sympify(values))) of literal_eval of the "
+                           "same quoted text, followed by the use_sympy switch")
+    if not ops:
+        raise ExtractError("load_subs: replace sequence / nan test not found")
+    return list(ops), nan_lit, block, (fn0.lineno, fn0.end_lineno)
 
 
 # ------------------------------------------------------------------------------------------------
@@ -333,11 +749,11 @@ def _templates(tree):
 def gen(stage):
     tree = extract._parse(stage, SIMP)
     dtree = extract._parse(stage, DUPC)
-    stmts, srcs, comb_src, span1 = _get_all_dup(tree)
+    stmts, srcs, comb_src, comb_order, span1 = _get_all_dup(tree)
     seq, nan_lit, block, span2 = _load_subs(tree)
     tmpl, kinds, span3 = _templates(tree)
-    rd = [d for d, ln in _csv_delims(extract.find_def(tree, "load_subs"), SIMP, "reader")]
-    wr = _csv_delims(tree, SIMP, "writer") + _csv_delims(dtree, DUPC, "writer")
+    rd = [d for d, ln in _csv_delims(extract.find_def(tree, "load_subs"), SIMP, "reader", _str_consts(tree))]
+    wr = _csv_delims(tree, SIMP, "writer", _str_consts(tree)) + _csv_delims(dtree, DUPC, "writer", _str_consts(dtree))
     if len(rd) != 1:
         raise ExtractError("load_subs: expected exactly one csv.reader")
     if not wr:
@@ -352,7 +768,9 @@ def gen(stage):
     for s in srcs:
         t += "-- %s\n" % s
     t += "def allDupStmts : List DupStmt := %s\n\n" % llist(stmts)
-    t += "def combSource : String := %s\n\n" % lstr(comb_src)
+    t += "-- comb = %s\n" % comb_src.replace("\n", " ")
+    t += "/-- order of the parameter indices whose 2-combinations `comb` lists (\"-\" = no pair statement) -/\n"
+    t += "def combOrder : String := %s\n\n" % lstr(comb_order)
     t += "-- load_subs: %s\n" % "; ".join("line %d .replace(%r, %r)" % (ln, a, b) for a, b, ln in seq)
     t += "def replaceSeq : List (List Char × List Char) :=\n  %s\n\n" % llist(["(%s, %s)" % (lchars(a), lchars(b)) for a, b, ln in seq])
     t += "def nanLiteral : List Char := %s\n\n" % lchars(nan_lit)
@@ -375,3 +793,18 @@ def template_sources(stage):
     tmpl, kinds, _ = _templates(extract._parse(stage, SIMP))
     return [dict(family=f, domain=dom, inverse=inv, pattern=pat, replacement=rep, flag=flag, line=ln)
             for f, dom, inv, pat, rep, flag, ln in tmpl], kinds
+
+
+def baseline_templates():
+    """the template table of the committed baseline (harness/baseline_generated/Subs.lean), in template_sources' format;
+    used by the harness only to keep exploring when today's sympy_simplify cannot be read (that stays a broken obligation)"""
+    import os, re
+    txt = open(os.path.join(extract.HERE, "baseline_generated", "Subs.lean")).read()
+    def block(name):
+        m = re.search(r"def %s .*?:=\n(.*?)\n\n|def %s .*?:=\n(.*)\Z" % (name, name), txt, flags=re.S)
+        return (m.group(1) or m.group(2)) if m else ""
+    unq = lambda x: x.replace('\\"', '"').replace("\\\\", "\\")
+    tm = re.findall(r'\("((?:[^"\\]|\\.)*)", "((?:[^"\\]|\\.)*)", "((?:[^"\\]|\\.)*)"\)', block("templates"))
+    ks = re.findall(r'\("((?:[^"\\]|\\.)*)", "((?:[^"\\]|\\.)*)"\)', block("recordSites"))
+    return ([dict(family=unq(f), domain=unq(d), inverse=unq(i), pattern="?", replacement="?", flag=None, line=0) for f, d, i in tm],
+            [(unq(k), unq(v)) for k, v in ks])
